@@ -122,6 +122,32 @@ impl ConstantPattern {
     }
 }
 
+/// Return the rank of a constant or value node, if known.
+fn node_rank(graph: &Graph, node_id: NodeId) -> Option<usize> {
+    match graph.get_node(node_id)? {
+        Node::Constant(const_node) => Some(const_node.ndim()),
+        Node::Value(value_node) => value_node.ndim(),
+        Node::Operator(_) => None,
+    }
+}
+
+/// Test whether the single-element constant `const_id` behaves like a scalar
+/// when it is broadcast against the other `operands` of an operator.
+///
+/// A single-element constant with `N` dimensions (eg. shape `[1, 1]`) adds
+/// leading dimensions to the result unless it is combined with an operand that
+/// is known to have at least `N` dimensions. Only zero-rank constants are
+/// neutral when the rank of the other operands is unknown.
+pub fn is_broadcast_neutral(graph: &Graph, const_id: NodeId, operands: &[NodeId]) -> bool {
+    let Some(const_rank) = node_rank(graph, const_id) else {
+        return false;
+    };
+    const_rank == 0
+        || operands.iter().any(|&operand| {
+            operand != const_id && node_rank(graph, operand).is_some_and(|rank| rank >= const_rank)
+        })
+}
+
 #[derive(Clone, Debug, PartialEq)]
 pub struct OpPattern {
     /// Name of the operator (eg. "MatMul")
@@ -174,8 +200,11 @@ impl OpPattern {
             && let [pat_a, pat_b] = &self.inputs[..]
             && let [Some(input_a), Some(input_b)] = node.input_ids()
         {
+            let operands = [*input_a, *input_b];
             let action = symbols.transaction(|s| {
-                if pat_a.test_impl(*input_a, graph, s) && pat_b.test_impl(*input_b, graph, s) {
+                if pat_a.test_operand(*input_a, &operands, graph, s)
+                    && pat_b.test_operand(*input_b, &operands, graph, s)
+                {
                     SymbolsAction::Keep
                 } else {
                     SymbolsAction::Discard
@@ -184,14 +213,17 @@ impl OpPattern {
             if action.is_keep() {
                 return true;
             }
-            pat_b.test_impl(*input_a, graph, symbols) && pat_a.test_impl(*input_b, graph, symbols)
+            pat_b.test_operand(*input_a, &operands, graph, symbols)
+                && pat_a.test_operand(*input_b, &operands, graph, symbols)
         } else {
+            let operands: NodeIdVec = node.input_ids().iter().copied().flatten().collect();
             self.inputs
                 .iter()
                 .zip(node.input_ids())
                 .all(|(input_expr, input_id)| {
-                    input_id.map(|input_id| input_expr.test_impl(input_id, graph, symbols))
-                        == Some(true)
+                    input_id.map(|input_id| {
+                        input_expr.test_operand(input_id, &operands, graph, symbols)
+                    }) == Some(true)
                 })
         }
     }
@@ -295,7 +327,7 @@ fn match_pattern_set_recursive(
             continue;
         }
         let action = symbols.transaction(|s| {
-            if !pat.test_impl(graph_input, graph, s) {
+            if !pat.test_operand(graph_input, nodes, graph, s) {
                 return SymbolsAction::Discard;
             }
             used[i] = true;
@@ -453,6 +485,25 @@ impl Pattern {
         } else {
             None
         }
+    }
+
+    /// Match this pattern against `node_id`, which is one of the `operands`
+    /// of an operator.
+    ///
+    /// In addition to [`test_impl`](Self::test_impl), this checks that a
+    /// single-element constant matched by a constant pattern does not change
+    /// the shape of the operator's result when it is broadcast against the
+    /// other operands.
+    fn test_operand(
+        &self,
+        node_id: NodeId,
+        operands: &[NodeId],
+        graph: &Graph,
+        symbols: &mut SymbolMap,
+    ) -> bool {
+        self.test_impl(node_id, graph, symbols)
+            && (!matches!(&*self.kind, PatternKind::Constant(_))
+                || is_broadcast_neutral(graph, node_id, operands))
     }
 
     /// Match this pattern against a subgraph with output `node_id` and record
